@@ -31,7 +31,7 @@ TARGET = os.path.join(ROOT, ".build", "miri-target")
 LOGS = os.path.join(TARGET, "logs")
 REPO = os.environ.get("XT_REPO_DIR", "/repo")
 GROUPS = ["utf8_slice_and_short_reads", "utf16_utf32", "malformed_inputs", "failing_readers",
-          "over_reporting_guard", "over_reporting_panics", "early_drops"]
+          "over_reporting_guard", "over_reporting_panics", "early_drops", "big_reencoded_alignments"]
 # Leak-only reports of these groups are the recorded finding K8 (a panic raised
 # inside libyaml's read callback unwinds through unsafe-libyaml's scanner and
 # leaks its temporaries); anything else anywhere is unclassified.
